@@ -29,6 +29,11 @@ RULE = ("S->C: TLC enumerates the message-shape case analysis of MsgHash_Gen (ki
         "MsgHash_Gen also builds, from the cell definitions, messages whose body / init holds exotic subtrees (Merkle proof over a partly "
         "pruned tree, a cell X next to a proof in which X is pruned, Merkle update, library cell, pruned branch; by reference, inline, "
         "nested deeper) and a minimal transaction around each, and hands them over as bags written by Boc!Write. "
+        "Multi-step part (MsgHashSeq.tla): decoding as a state machine over (source cell, destination value); TLC enumerates every "
+        "behaviour of 2 (thorough: 3) decodes over 2 cells x 2 values x {package-level Unmarshal, caching decoder}; the harness replays "
+        "each on message cells and on transaction cells WITHOUT ever rewinding a cell or clearing a value and observes every value "
+        "after every step (Hash, normalised hash, SourceBoc, fields); plus random longer sessions; MsgHash_SeqTrace accepts a recording "
+        "only as a behaviour of MsgHashSeq in which every observer reports what MsgHash derives from the cell decoded last. "
         "distinct = distinct source cell tables judged.")
 
 NSHARD_GEN = 8
@@ -287,6 +292,106 @@ def flip(h):
     return h[:-1] + ("0" if h[-1] != "0" else "1")
 
 
+# ---------------------------------------------------------------- sessions (spec/MsgHashSeq.tla)
+def session_key(rj, note):
+    """input class of a rejected session line: what had happened to the cell / the destination value before"""
+    seg = rj["segment"]
+    kind = seg[0].get("kind", "?")
+    reads, writes = collections.Counter(), collections.Counter()
+    for e in seg[1:rj["accepted"]]:
+        if e.get("k") == "Decode":
+            reads[e["c"]] += 1
+            writes[e["d"]] += 1
+    e = rj["event"]
+    if e.get("k") == "Decode":
+        cl = ("cell-decoded-before" if reads[e["c"]] else "fresh-cell") + "+" + ("value-reused" if writes[e["d"]] else "fresh-value")
+        return "C16:session:%s:%s:%s" % (kind, note, cl)
+    if e.get("k") == "Obs":
+        return "C16:session:%s:%s:%s" % (kind, note, "value-reused" if writes[e["d"]] > 1 else "value-decoded-once")
+    return "C16:session:%s:%s" % (kind, e.get("k"))
+
+
+def sessions(ck):
+    """S->C: every behaviour of MsgHashSeq_Gen replayed on real cells and variables; C->S: random longer sessions; both validated
+    line by line as behaviours of MsgHashSeq by MsgHash_SeqTrace."""
+    depth = 3 if ck.thorough else 2
+    cfg = open(os.path.join(vlib.SPEC, "gen/MsgHashSeq_Gen.cfg")).read().replace("Depth = 2", "Depth = %d" % depth)
+    cp = os.path.join(ck.work, "MsgHashSeq_Gen.cfg")
+    open(cp, "w").write(cfg)
+    res = ck.tlc_or_infra("MsgHashSeq_Gen", os.path.relpath(cp, vlib.SPEC), workers=2, timeout=900, name="gen_sessions", heap_gb=2)
+    vecs = res.vecs()
+    if len(vecs) != 8 ** depth:
+        raise Infra("MsgHashSeq_Gen produced %d behaviours, expected %d" % (len(vecs), 8 ** depth))
+    for i, v in enumerate(vecs):
+        v["vec"] = i
+    nsh = 8 if ck.thorough else 2
+
+    def rep(i):
+        vp, rp = os.path.join(ck.work, "sess_gen_%02d.vec.json" % i), os.path.join(ck.work, "sess_gen_%02d.ndjson" % i)
+        part = vecs[i::nsh]
+        vlib.write_ndjson(vp, part)
+        ck.run_vh(["replay", "C16", "-part", "sessions", "-in", vp, "-out", rp, "-seed", ck.seed])
+        out = vlib.read_ndjson(rp)
+        if not out or out[-1].get("k") != "End" or out[-1]["events"] != len(part):
+            raise Infra("replay of the session behaviours (shard %d) did not finish" % i)
+        return rp
+
+    def drv(i):
+        tp = os.path.join(ck.work, "sess_drive_%02d.ndjson" % i)
+        ck.run_vh(["drive", "C16", "-part", "sessions", "-out", tp, "-tier", ck.tier, "-seed", ck.seed, "-shard", i, "-shards", nsh])
+        return tp
+    traces = vlib.parallel(lambda f: f[0](f[1]), [(rep, i) for i in range(nsh)] + [(drv, i) for i in range(nsh)], n=2 * nsh)
+    files = merge(ck, traces, nsh, "jsess")
+
+    def val(tp):
+        return ck.validate_segments("MsgHash_SeqTrace", "trace/MsgHash_SeqTrace.cfg", tp, timeout=1800, name="sess_" + os.path.basename(tp)[:-7], heap_gb=3)
+    nseg = nobs = 0
+    for tp, (res, rejected) in zip(files, vlib.parallel(val, files, n=nsh)):
+        notes = {t[1]: t[2] for t in res.tuples("NOTE")}
+        for rj in rejected:
+            e = rj["event"]
+            note = notes.get(rj["line"], e.get("k", "?"))
+            if note == "source-readable":
+                raise Infra("session line %d of %s: MsgHash cannot read the source cell (harness problem, not a C16 verdict)" % (rj["line"], tp))
+            seg = rj["segment"]
+            ck.report(session_key(rj, note), "session over %s cells (%s): line %d of the segment is not a step of MsgHashSeq: %s. Steps so far: %s; "
+                      "rejected: %s" % (seg[0].get("kind"), seg[0].get("origin"), rj["accepted"], note,
+                                        json.dumps([{k: x for k, x in y.items() if k in ("k", "c", "d", "dec")} for y in seg[1:rj["accepted"]] if y.get("k") == "Decode"]),
+                                        json.dumps({k: x for k, x in e.items() if k not in ("src",)})[:400]),
+                      {"kind": "session", "note": note, "segment": [slim(x, 8000) for x in seg[:rj["accepted"] + 1]]})
+        for l in open(tp):
+            nseg += '"k":"Reset"' in l
+            nobs += '"k":"Obs"' in l
+    ck.extra["session_behaviours_generated"] = len(vecs)
+    ck.extra["session_segments_validated"] = nseg
+    ck.extra["session_observations"] = nobs
+    if nobs < 100:
+        raise Infra("too few session observations recorded: %d" % nobs)
+    # canaries: an observation of the second decode altered / a refused decode claimed / a source bag altered
+    evs = vlib.read_ndjson(files[0])[:-1]
+    starts = [i for i, e in enumerate(evs) if e["k"] == "Reset"] + [len(evs)]
+    segs = [evs[a:b] for a, b in zip(starts, starts[1:])]
+    sm = next(s_ for s_ in segs if s_[0]["kind"] == "msg" and sum(e["k"] == "Decode" for e in s_) >= 2)
+    st = next(s_ for s_ in segs if s_[0]["kind"] == "tx" and sum(e["k"] == "Decode" for e in s_) >= 2)
+    c1 = copy.deepcopy(sm); i1 = max(i for i, e in enumerate(c1) if e["k"] == "Obs"); c1[i1]["h"] = flip(c1[i1]["h"])
+    c2 = copy.deepcopy(sm); i2 = max(i for i, e in enumerate(c2) if e["k"] == "Decode"); c2[i2]["err"] = "e"
+    c3 = copy.deepcopy(st); i3 = max(i for i, e in enumerate(c3) if e["k"] == "Obs"); c3[i3]["src"] = c3[i3]["src"][:-1] + ("0" if c3[i3]["src"][-1] != "0" else "1")
+    # the value is said to hold the OTHER cell's hash (what a stale destination would report)
+    c4 = copy.deepcopy(st)
+    obs = [i for i, e in enumerate(c4) if e["k"] == "Obs"]
+    other = next((c4[i]["h"] for i in obs if c4[i]["h"] != c4[obs[-1]]["h"]), flip(c4[obs[-1]]["h"]))
+    c4[obs[-1]]["h"] = other
+    p = os.path.join(ck.work, "canary_sessions.ndjson")
+    vlib.write_ndjson(p, c1 + c2 + c3 + c4 + sm + st + [{"k": "End"}])
+    keep = (ck.states, ck.transitions, ck.traces_ok, ck.evaluations)
+    _, rej = ck.validate_segments("MsgHash_SeqTrace", "trace/MsgHash_SeqTrace.cfg", p, name="canary_sessions")
+    ck.states, ck.transitions, ck.traces_ok, ck.evaluations = keep
+    o1, o2, o3, o4 = 0, len(c1), len(c1) + len(c2), len(c1) + len(c2) + len(c3)
+    want = [o1 + i1 + 1, o2 + i2 + 1, o3 + i3 + 1, o4 + obs[-1] + 1]
+    ck.canary("sessions: observed hash changed / a decode reported as refused / source bag changed / value reports another cell's hash -> "
+              "each segment rejected at that line, the unmodified segments accepted", [r["line"] for r in rej] == want)
+
+
 def run(ck):
     ck.assumptions += ["TLC + CommunityModules Json", "Prim!Sha256 / Crc32c (JDK) and converters; every layout (message header, canonical cell, "
                        "hashmap labels, cell representation, BoC) is TLA+", "SHA-256 collision freedom (for 'must differ')",
@@ -313,7 +418,7 @@ def run(ck):
         traces = vlib.parallel(drive, range(shards))
         return None, traces, merge(ck, traces, njvm, "jdrive")
     log("built harness at %.1fs" % (time.time() - ck.t0))
-    (vecs, gtraces, jg), (_, traces, jd) = vlib.parallel(lambda f: f(), [s2c, c2s], n=2)
+    (vecs, gtraces, jg), (_, traces, jd), _ = vlib.parallel(lambda f: f(), [s2c, c2s, lambda: (sessions(ck), None, None)], n=3)
     log("vectors generated and concretised, traces recorded at %.1fs" % (time.time() - ck.t0))
     anyc, _ = judge(ck, jg + jd, par=vlib.NCPU)
     log("traces judged at %.1fs" % (time.time() - ck.t0))
